@@ -308,6 +308,21 @@ def main(argv):
     return report(pid, tier, seed, hmod, shapes, results, skipped, time.time() - t0)
 
 
+def _selftest_summary():
+    try:
+        from . import selftest
+        r = selftest.LAST_REPORT
+        if not r:
+            return None
+        out = {k: v.get('ok') for k, v in r.items() if isinstance(v, dict)}
+        ss = r.get('second_solver', {}).get('info', {})
+        out['cross_checked_vcs'] = ss.get('vcs')
+        out['cross_check_verdicts'] = {k: ss.get(k) for k in ('z3_4.8.12', 'cvc5')}
+        return out
+    except Exception:
+        return None
+
+
 def report(pid, tier, seed, hmod, shapes, results, skipped, wall):
     known = load_known()
     tot = lambda k: sum(r[k] for r in results)
@@ -398,6 +413,7 @@ def report(pid, tier, seed, hmod, shapes, results, skipped, wall):
             'notes': sorted({n for r in results for n in r['notes']}),
             'cpu_s': round(sum(r.get('wall_s', 0) for r in results), 1),
             'solver': 'z3 ' + __import__('z3').get_version_string(),
+            'selftest_before_run': _selftest_summary(),
         },
         'assumptions': list(getattr(hmod, 'ASSUMPTIONS', [])),
         'wall_s': round(wall, 2), 'violations': len(violations),
